@@ -121,6 +121,7 @@ func handover(r *vf.Run) {
 	me := refctl.NewIdentity("handover-controller", r.Rand("handover-id"))
 	app.StoreController(dir, me)
 	sw := accessory.NewSwitch(accessory.Info{Name: "Handover"})
+	app.EnableTimeJumps()
 	a, err := app.Start(dir, "00102003", sw.Accessory)
 	if err != nil {
 		r.Inconclusive("handover: transport did not start: " + err.Error())
@@ -143,6 +144,7 @@ func handoverN(r *vf.Run, per int) {
 	me := refctl.NewIdentity("handover-controller", r.Rand("handover-id"))
 	app.StoreController(dir, me)
 	sw := accessory.NewSwitch(accessory.Info{Name: "Handover"})
+	app.EnableTimeJumps()
 	a, err := app.Start(dir, "00102003", sw.Accessory)
 	if err != nil {
 		fmt.Println("transport did not start:", err)
@@ -154,6 +156,7 @@ func handoverN(r *vf.Run, per int) {
 }
 
 func handoverRun(r *vf.Run, a *app.App, me *refctl.Identity, acc app.StoredEntity, per int) {
+	_ = a
 	for mode := 0; mode < len(scheduleNames); mode++ {
 		n := per
 		if mode == 0 {
@@ -241,6 +244,19 @@ func oneHandover(r *vf.Run, a *app.App, me *refctl.Identity, acc app.StoredEntit
 		}
 	}
 	r.Count("handovers_ok", 1)
+	// ninety seconds without traffic (virtual: every deadline armed on an accepted connection moves into the past),
+	// then the connection is used again: nothing the handover armed may fire on the idle connection
+	if mode == 0 || mode == 3 {
+		old := atomic.SwapInt32(&schedule, 0)
+		app.Jump(90 * time.Second)
+		m, err := c.Do("GET", "/characteristics?id=1.3", "", nil)
+		atomic.StoreInt32(&schedule, old)
+		if err != nil || m.Status != 200 {
+			r.Violation("handover:dead-after-idle", fmt.Sprintf("the connection answered three requests after the handover; after ninety seconds without traffic the next request gets no answer: %v", err), w(""))
+			return
+		}
+		r.Count("handovers_used_again_after_idle", 1)
+	}
 	// (under every schedule: with a late abort the read that was blocked while the second exchange was handled
 	// is still waiting when the first frame under the new keys arrives)
 	// pair-verify once more on the same, now encrypted, connection (the session "allows to switch encryption"):
